@@ -125,6 +125,16 @@ Definition check (c : sexp) : sexp :=
               let fuel := default_fuel D in
               if negb (type_names_okb Sc) then v_bad "type-name-with-zero-byte"
               else if negb (doc_positions_okb D) then v_oracle_fail "parser-positions-not-distinct" []
+              else if negb (dirs_evaluable D E) then
+                (* outside the property: a @skip/@include condition without a boolean value (a
+                   variable without value in an unvalidated document; an explicit null for a
+                   nullable variable with a default in a validated one).  The executor model —
+                   error for the directive, selection left out, once per cache miss — is compared *)
+                match run fixed Sc D E fuel W with
+                | OutOfFuel => v_bad "out-of-fuel"
+                | m => if agrees m obs then v_ok ["directive-not-evaluable"]
+                       else v_mismatch "response-directive-not-evaluable" [tag "model" [of_run m]]
+                end
               else if negb (doc_ok Sc D E fuel fuel) then
                 (* outside the property: only a document handed over without validation may get
                    here; the executor model is still compared (blank keys, panics) *)
